@@ -191,7 +191,7 @@ func (v *buf[T]) Data() (data []int64, ok bool) {
 			ok = false
 		}
 	}()
-	n := v.b.Cap()
+	n := v.b.Channels() * v.b.Capacity() // the part of the capacity window the API can reach (== Cap() when aligned)
 	data = make([]int64, 0, n)
 	if n == 0 {
 		return data, true
